@@ -26,10 +26,11 @@ EXPLANATION = ("Lean theorems (all programs of the modelled fragment, unbounded 
                "over all programs clang accepts; outside the model: struct/class members and member functions (setVarIdPass2), "
                "namespaces, lambdas, templates, typedef names, structured bindings, function/overload linking "
                "(SymbolDatabase, Scope::findFunction), declaration-recognition heuristics beyond the printed forms.")
-THEOREMS = ["Cppcheck.VarMap.varmap_refines", "Cppcheck.VarMap.run_eq_srun", "Cppcheck.VarMap.run_eq_srun_of_noGuse",
-            "Cppcheck.VarMap.resolve_eq_spec", "Cppcheck.VarMap.ids_distinct", "Cppcheck.VarMap.declIds_range",
-            "Cppcheck.VarMap.varmap_oldorder_counterexample", "Cppcheck.VarMap.resolveOld_counterexample",
-            "Cppcheck.VarMap.run_guse_undeclared_counterexample"]
+THEOREMS = ["Cppcheck.VarMap.varmap_refines_partial", "Cppcheck.VarMap.varmap_refines", "Cppcheck.VarMap.varmap_enum_counterexample",
+            "Cppcheck.VarMap.run_eq_srun", "Cppcheck.VarMap.run_eq_srun_of_noGuse", "Cppcheck.VarMap.run_guse_undeclared_counterexample",
+            "Cppcheck.VarMap.resolve_eq_spec_partial", "Cppcheck.VarMap.resolve_enum_counterexample",
+            "Cppcheck.VarMap.ids_distinct", "Cppcheck.VarMap.declIds_range",
+            "Cppcheck.VarMap.varmap_oldorder_counterexample", "Cppcheck.VarMap.resolveOld_counterexample"]
 MODULES = ["Cppcheck.Props.C08"]
 
 TYPES = ["int", "long", "unsigned", "short"]
@@ -352,18 +353,29 @@ class Gen:
     `extern` (valid C and C++); C++ additionally keeps for-init / condition / catch names out of the outermost block of the
     controlled statement.  `wild` programs (not valid, never sent to clang) also re-declare plainly and use undeclared names."""
 
-    def __init__(self, rng, cpp, wild=False, size=1.0, nnames=6, dupbias=0.12):
+    def __init__(self, rng, cpp, wild=False, size=1.0, nnames=6, dupbias=0.12, enums=0.06):
         self.rng, self.cpp, self.wild, self.size, self.nn, self.dupbias = rng, cpp, wild, size, nnames, dupbias
         self.valid = True
         self.gdef = {}         # file scope: name -> set of forms seen ('ext', 'tent', 'init')
-        self.scopes = []       # block scopes: dict name -> 'plain' | 'ext' (innermost last)
+        self.genum = set()     # file-scope enumerators
+        self.scopes = []       # block scopes: dict name -> 'plain' | 'ext' | 'enum' (innermost last)
+        self.enums = enums
         self.budget = 0
 
     def visible(self):
-        v = set(self.gdef)
+        v = set(self.gdef) | self.genum
         for sc in self.scopes:
             v |= set(sc)
         return sorted(v)
+
+    def is_var(self, u):
+        """does lexical scoping bind this use to a variable (an lvalue)?"""
+        if isinstance(u, list):
+            return u[1] in self.gdef
+        for sc in reversed(self.scopes):
+            if u in sc:
+                return sc[u] != "enum"
+        return u in self.gdef or (u not in self.genum)
 
     def uses(self, lo, hi, extra=()):
         n = self.rng.randint(lo, hi)
@@ -396,7 +408,7 @@ class Gen:
             if x in blocked and not self.wild:
                 continue
             if cur is None:
-                ext = rng.random() < self.dupbias
+                ext = rng.random() < self.dupbias and x not in self.genum
                 sc[x] = "ext" if ext else "plain"
                 if x in blocked:
                     self.valid = False
@@ -427,9 +439,18 @@ class Gen:
 
     def xstmt(self):
         us = self.uses(1, 4)
-        if not us:
-            us = []
-        return ["X", us, dict(shape=self.rng.choice([0, 0, 1, 1, 2, 3, 4]), ops=self.rng.randrange(30))]
+        shape = self.rng.choice([0, 0, 1, 1, 2, 3, 4])
+        if us and shape in (0, 3, 4) and not self.is_var(us[0]) and not self.wild:
+            shape = 1          # an enumerator is not an lvalue
+        return ["X", us, dict(shape=shape, ops=self.rng.randrange(30))]
+
+    def pick_enum(self, blocked=()):
+        sc = self.scopes[-1]
+        for _ in range(6):
+            x = self.rng.randrange(self.nn)
+            if x not in sc and x not in blocked:
+                return x
+        return None
 
     def stmt(self, depth, blocked=()):
         """returns a list of statements (try/catch is a pair)"""
@@ -437,6 +458,12 @@ class Gen:
         r = rng.random()
         ops = rng.randrange(30)
         nb = 1 if rng.random() < 0.25 else 0
+        if rng.random() < self.enums:
+            x = self.pick_enum(blocked)
+            if x is not None:
+                us = self.uses(0, 2) if rng.random() < 0.5 else []
+                self.scopes[-1][x] = "enum"        # visible only after its own initialiser
+                return [["N", x, us, dict(ini=rng.randrange(2), tag=rng.randrange(2))]]
         if r < 0.34:
             x, ext = self.pick_decl(blocked)
             if x is not None:
@@ -505,10 +532,14 @@ class Gen:
             i = ["d", x, us]
         elif k < 0.8:
             i = ["e", self.uses(1, 2)]
+            if not i[1] or not self.is_var(i[1][0]):
+                i = ["n"]
         else:
             i = ["n"]
         c = self.uses(0, 2)
         s = self.uses(0, 2)
+        if s and not self.is_var(s[0]):
+            s = []
         b = self.block(depth, tuple(pre) if self.cpp else ())
         self.scopes.pop()
         return [["R", i, c, s, b, dict(ops=ops, nb=nb)]]
@@ -528,6 +559,11 @@ class Gen:
     def gdecl(self):
         rng = self.rng
         x = rng.randrange(self.nn)
+        if x in self.genum:
+            cand = [y for y in range(self.nn) if y not in self.genum]
+            if not cand:
+                return ["P", []]
+            x = rng.choice(cand)
         seen = self.gdef.get(x, set())
         form = rng.choice(["ext", "tent", "init", "init"])
         # C: at most one initialised definition, tentative definitions may repeat.  C++: at most one non-extern declaration.
@@ -549,6 +585,14 @@ class Gen:
         self.budget = int(rng.choice([6, 10, 14, 20, 30]) * self.size)
         for _ in range(ntop):
             r = rng.random()
+            if rng.random() < self.enums * 1.5:
+                cand = [y for y in range(self.nn) if y not in self.genum and y not in self.gdef]
+                if cand:
+                    x = rng.choice(cand)
+                    us = self.uses(0, 2) if rng.random() < 0.4 else []
+                    self.genum.add(x)
+                    p.append(["M", x, us, dict(ini=rng.randrange(2), tag=rng.randrange(2))])
+                    continue
             if r < 0.35:
                 p.append(self.gdecl())
             elif r < 0.45:
@@ -566,7 +610,7 @@ def gen_case(rng, tier):
     cpp = rng.random() < 0.5
     wild = rng.random() < 0.12
     g = Gen(rng, cpp, wild, size=2.0 if tier == "thorough" and rng.random() < 0.3 else 1.0,
-            nnames=rng.choice([2, 3, 4, 6, 6]), dupbias=rng.choice([0.1, 0.1, 0.3, 0.6]))
+            nnames=rng.choice([2, 3, 4, 6, 6]), dupbias=rng.choice([0.1, 0.1, 0.3, 0.6]), enums=rng.choice([0, 0.05, 0.05, 0.15]))
     p = g.prog()
     return dict(cpp=cpp, prog=p, valid=g.valid)
 
@@ -591,7 +635,8 @@ def model_run(drv, cases):
 
 
 def impl_run(exe, cases):
-    """real tokenizer; per case ('ok', ids per occurrence [None = no token on that line]) or ('err'|'conflict', text)"""
+    """real tokenizer; per case ('ok', A, B) = ids per occurrence after the token-list passes (setVarId) and after the complete
+    simplifyTokens1 (None = no token on that line), or ('err'|'conflict', text)"""
     lines, occs = [], []
     for c in cases:
         text, occ = print_prog(c["prog"], c["cpp"])
@@ -603,19 +648,21 @@ def impl_run(exe, cases):
         raise core.CheckBroken("C08 harness produced %d lines for %d ops (rc=%s): %s" % (len(out), len(cases), rc, err[-500:]))
     res = []
     for o, occ in zip(out, occs):
-        if not o.startswith("ok"):
+        m = re.match(r"^ok A(.*) \| B(.*)$", o)
+        if not m:
             res.append(("err", o))
             continue
-        by_line = {}
-        conflict = False
-        for ent in o.split()[1:]:
-            l, v = ent.split(":")
-            l, v = int(l), int(v)
-            if l in by_line and by_line[l] != v:
-                conflict = True        # the copies of one source token (simplifyVarDecl) must agree
-            by_line.setdefault(l, v)
-        ids = [by_line.get(oc[0]) for oc in occ]
-        res.append(("conflict", o) if conflict else ("ok", ids))
+        stages, conflict = [], False
+        for part in m.groups():
+            by_line = {}
+            for ent in part.split():
+                l, v = ent.split(":")
+                l, v = int(l), int(v)
+                if l in by_line and by_line[l] != v:
+                    conflict = True        # the copies of one source token (simplifyVarDecl) must agree
+                by_line.setdefault(l, v)
+            stages.append([by_line.get(oc[0]) for oc in occ])
+        res.append(("conflict", o) if conflict else ("ok", stages[0], stages[1]))
     return res
 
 
@@ -624,7 +671,7 @@ def nontrivial(spec_ids, occ):
     seen = {}
     for oc in occ:
         x, k = oc[1], oc[2]
-        if k == "d":
+        if k in ("d", "e"):
             seen[x] = seen.get(x, 0) + 1
         elif seen.get(x, 0) >= 2:
             return True
@@ -639,46 +686,84 @@ def p_impl(c, ids, mo, occ):
     """the property evaluated on the implementation: (wrongly linked occurrence indices, unlinked indices, duplicate decl ids)"""
     bad = [j for j, (a, b) in enumerate(zip(ids, mo["S"])) if a != b and a]
     unl = [j for j, (a, b) in enumerate(zip(ids, mo["S"])) if a != b and not a]
-    decl_ids = [a for oc, a in zip(occ, ids) if oc[2] == "d"]
+    decl_ids = [a for oc, a in zip(occ, ids) if oc[2] == "d" and a]     # id 0 = the declaration is not linked at all
     dup_ids = len(set(decl_ids)) != len(decl_ids)
     return bad, unl, dup_ids
 
 
-def classify(ids, mo):
+SUBSTMTS = {"B": [1], "I": [2], "J": [2, 3], "W": [2], "O": [1], "R": [4]}
+
+
+def enum_names(p):
+    """names declared as enumerators anywhere in the program"""
+    out = set()
+
+    def walk(ss):
+        for s in ss:
+            if s[0] == "N":
+                out.add(s[1])
+            for si in SUBSTMTS.get(s[0], []):
+                walk(s[si])
+    for t in p:
+        if t[0] == "M":
+            out.add(t[1])
+        elif t[0] == "F":
+            walk(t[2])
+    return out
+
+
+def classify(c, ids, mo, occ, bad, dup_ids):
     """known classes of a disagreement with lexical scoping"""
     if mo["dup"] and ids == mo["O"] and mo["O"] != mo["M"]:
         return "dup-decl-in-scope"     # F4: the pre-fix leaveScope order (a `fixed` entry: reported as VIOLATION if it returns)
+    en = enum_names(c["prog"])
+    if ids == mo["M"] and not dup_ids and bad and all(mo["S"][j] == 0 and occ[j][1] in en for j in bad):
+        # F8b: every wrongly linked token is one lexical scoping binds to an ENUMERATOR of the program (or to nothing), and
+        # the model of the code (VariableMap never told about enumerators) predicts the ids exactly
+        return "enumerator-hides-variable"
     return None
 
 
 def compare(ctx, res, name, cases, impl, model, register=True):
-    """correspondence impl vs M (model of the code), P_impl impl vs S (lexical scoping); returns (violations, mismatch indices)"""
-    mism, viol = [], []
+    """correspondence: ids after setVarId (stage A) vs M (model of the code); later passes only clear ids (stage B vs A);
+    P_impl: final ids (stage B) vs S (lexical scoping).  Returns (violations, mismatch indices)"""
+    mism, viol, stage = [], [], []
     for k, (c, im, mo) in enumerate(zip(cases, impl, model)):
         text, occ = print_prog(c["prog"], c["cpp"])
-        ids = im[1] if im[0] == "ok" else None
+        A = im[1] if im[0] == "ok" else None
+        B = im[2] if im[0] == "ok" else None
         if register:
             res.count("lang:" + ("c++" if c["cpp"] else "c"))
             res.count("valid:%d" % (1 if c.get("valid", True) else 0))
             res.count("occurrences:%02d+" % min(60, 10 * (len(occ) // 10)))
             if mo["dup"]:
                 res.count("dup-decl-in-one-impl-scope")
+            if any(oc[2] == "e" for oc in occ):
+                res.count("has-enumerator")
+            if not mo["nvh"]:
+                res.count("enumerator-hides-visible-variable")
             if any(oc[2] == "g" for oc in occ):
                 res.count("has-global-qualified-use")
             samp = None
             if k % max(1, len(cases) // 4) == 0:
-                samp = dict(tie=name, lang="c++" if c["cpp"] else "c", program=text, impl=ids if ids is not None else str(im), model=mo["M"], spec=mo["S"])
+                samp = dict(tie=name, lang="c++" if c["cpp"] else "c", program=text, impl_after_setVarId=A if A is not None else str(im), impl_final=B, model=mo["M"], spec=mo["S"])
             res.case(name + "|" + describe(c), nontrivial(mo["S"], occ), samp)
-        if ids != mo["M"]:
+        if A != mo["M"]:
             mism.append(k)
-        # P_impl against the specification, wherever the premise of resolve_eq_spec holds
-        if ids is not None and mo["gok"]:
-            bad, unl, dup_ids = p_impl(c, ids, mo, occ)
+        if A is not None and any(b != a and b != 0 for a, b in zip(A, B)):
+            stage.append(k)          # a pass after setVarId gave a token a different non-zero id
+        if A is not None and A != B and register:
+            res.count("varid-cleared-after-setVarId")
+        # P_impl against the specification: on every program the generator built as valid, and on the others wherever the
+        # `::x` premise of the theorems holds (an undeclared `::x` has no meaning to compare with)
+        if B is not None and (mo["gok"] or c.get("valid", False)):
+            bad, unl, dup_ids = p_impl(c, B, mo, occ)
             if bad or dup_ids:
-                viol.append(dict(case=c, text=text, impl=ids, spec=mo["S"], model=mo["M"], old=mo["O"], bad=bad, dup_ids=dup_ids, key=classify(ids, mo)))
+                viol.append(dict(case=c, text=text, impl=B, spec=mo["S"], model=mo["M"], old=mo["O"], bad=bad, dup_ids=dup_ids,
+                                 key=classify(c, A, mo, occ, bad, dup_ids)))
             if unl and register:
                 res.count("unlinked-use")
-        elif ids is None and register:
+        elif A is None and register:
             res.count("tokenizer-rejects")
     if register:
         res.traces_validated += len(cases) - len(mism)
@@ -687,10 +772,12 @@ def compare(ctx, res, name, cases, impl, model, register=True):
         k = mism[0]
         cls = {}
         for j in mism:
-            kk = (classify(impl[j][1], model[j]) if impl[j][0] == "ok" else None) or "other"
+            kk = ("dup-decl-in-scope" if impl[j][0] == "ok" and model[j]["dup"] and impl[j][1] == model[j]["O"] else None) or "other"
             cls[kk] = cls.get(kk, 0) + 1
-        detail = "%d of %d programs differ, classes %s; first: %s\n%s\nimpl=%s\nmodel=%s" % (len(mism), len(cases), cls, describe(cases[k]), cases[k].get("text", ""), impl[k], model[k]["M"])
+        detail = "%d of %d programs differ, classes %s; first: %s\n%s\nimpl=%s\nmodel=%s" % (len(mism), len(cases), cls, describe(cases[k]), inline(cases[k].get("text", "")), impl[k][:2], model[k]["M"])
     res.oblig("correspondence:" + name, not mism, "correspondence", detail)
+    res.oblig("correspondence:%s:later-passes-only-clear-ids" % name, not stage, "correspondence",
+              "" if not stage else "%d programs: a pass after setVarId changed a non-zero id; first: %s\n%s" % (len(stage), describe(cases[stage[0]]), impl[stage[0]]))
     return viol, mism
 
 
@@ -721,14 +808,14 @@ def shrink_candidates(p):
             yield ss[:j] + ss[j + 1:]
             s = ss[j]
             k = s[0]
-            subs = {"B": [1], "I": [2], "J": [2, 3], "W": [2], "O": [1], "R": [4]}.get(k, [])
+            subs = SUBSTMTS.get(k, [])
             for si in subs:
                 yield ss[:j] + s[si] + ss[j + 1:]
                 for v in stmts_variants(s[si]):
                     s2 = list(s); s2[si] = v
                     yield ss[:j] + [s2] + ss[j + 1:]
-            if k in ("D", "X"):
-                ui = 2 if k == "D" else 1
+            if k in ("D", "X", "N"):
+                ui = 1 if k == "X" else 2
                 for q in range(len(s[ui])):
                     s2 = list(s); s2[ui] = s[ui][:q] + s[ui][q + 1:]
                     if k == "X" and not s2[ui]:
@@ -751,7 +838,7 @@ def still_fails(all_resolved):
     def pred(c, im, mo):
         if im[0] != "ok" or not mo["gok"] or (all_resolved and 0 in mo["S"]):
             return False
-        bad, unl, dup_ids = p_impl(c, im[1], mo, print_prog(c["prog"], c["cpp"])[1])
+        bad, unl, dup_ids = p_impl(c, im[2], mo, print_prog(c["prog"], c["cpp"])[1])
         return bool(bad) or dup_ids
     return pred
 
@@ -801,17 +888,19 @@ def clang_batch(ctx, cases, cpp, tag):
         ast = json.loads(r.stdout)
     except ValueError:
         return None, "unparsable clang output"
-    decl_at, ref_at = {}, {}
+    decl_at, ref_at, enum_ids = {}, {}, set()
     stack = [ast]
     while stack:
         n = stack.pop()
         if not isinstance(n, dict):
             continue
         kind = n.get("kind")
-        if kind in ("VarDecl", "ParmVarDecl") and re.match(r"^p\d+v\d+$", n.get("name", "")):
+        if kind in ("VarDecl", "ParmVarDecl", "EnumConstantDecl") and re.match(r"^p\d+v\d+$", n.get("name", "")):
             off = n.get("loc", {}).get("offset")
             if off is not None:
                 decl_at[off] = n["id"]
+                if kind == "EnumConstantDecl":
+                    enum_ids.add(n["id"])
         elif kind == "DeclRefExpr":
             rd = n.get("referencedDecl", {})
             if re.match(r"^p\d+v\d+$", rd.get("name", "")):
@@ -821,13 +910,15 @@ def clang_batch(ctx, cases, cpp, tag):
         stack.extend(n.get("inner", []))
     out = []
     for base, occ in metas:
-        num = {}
+        num = dict((e, 0) for e in enum_ids)       # an enumerator is not a variable: id 0, as in the specification
+        nv = 0
         for oc in occ:
             if oc[2] == "d" and (base + oc[3]) in decl_at:
-                num.setdefault(decl_at[base + oc[3]], len(num) + 1)
+                nv += 1
+                num.setdefault(decl_at[base + oc[3]], nv)
         ids = []
         for (line, x, kind, off) in occ:
-            ids.append(num.get((decl_at if kind == "d" else ref_at).get(base + off)))
+            ids.append(num.get((decl_at if kind in ("d", "e") else ref_at).get(base + off)))
         out.append(ids)
     return out, ""
 
@@ -894,7 +985,7 @@ def run(ctx, res):
     drv = ctx.driver("drv_c08")
     exe = harness_exe(ctx)
     corpus = load_corpus()
-    cases = [dict(cpp=c["cpp"], prog=c["prog"], valid=c.get("valid", True), origin="corpus", f4=c.get("f4", False)) for c in corpus]
+    cases = [dict(cpp=c["cpp"], prog=c["prog"], valid=c.get("valid", True), origin="corpus", f4=c.get("f4", False), f8b=c.get("f8b", False)) for c in corpus]
     n = 8000 if thorough else 1500
     for _ in range(n):
         cases.append(gen_case(rng, ctx.tier))
@@ -908,17 +999,21 @@ def run(ctx, res):
     viol, mism = compare(ctx, res, "tokenizer-varids", cases, impl, model)
     clang_oracle(ctx, res, cases, model, 4000 if thorough else 300)
     # violation search: the correspondence broke but no explored case violates the property itself -> widen and shrink
-    if (mism or any(not o["ok"] for o in res.obligations)) and not viol:
-        viol = search(ctx, res, drv, exe)
-    elif viol:
-        v = viol[0]
+    known = set(e["key"] for e in core.load_known() if e.get("property") == ID and e.get("kind") == "finding")
+    fresh = [v for v in viol if v["key"] not in known]
+    if (mism or any(not o["ok"] for o in res.obligations)) and not fresh:
+        viol = search(ctx, res, drv, exe) + viol
+    elif fresh:
+        v = fresh[0]          # a violation outside the known classes: report a minimised program first
         small = shrink(drv, exe, v["case"], still_fails(0 not in v["spec"]))
         if small is not v["case"]:
             im = impl_run(exe, [small])[0]
             mo = model_run(drv, [small])[0]
             text, occ = print_prog(small["prog"], small["cpp"])
-            bad, unl, dup_ids = p_impl(small, im[1], mo, occ)
-            viol.insert(0, dict(case=small, text=text, impl=im[1], spec=mo["S"], model=mo["M"], old=mo["O"], bad=bad, dup_ids=dup_ids, key=classify(im[1], mo)))
+            bad, unl, dup_ids = p_impl(small, im[2], mo, occ)
+            viol.insert(0, dict(case=small, text=text, impl=im[2], spec=mo["S"], model=mo["M"], old=mo["O"], bad=bad, dup_ids=dup_ids,
+                                key=classify(small, im[1], mo, occ, bad, dup_ids)))
+    viol.sort(key=lambda v: v["key"] in known)      # unknown classes first
     report(res, viol)
 
 
@@ -941,8 +1036,9 @@ def search(ctx, res, drv, exe):
         im = impl_run(exe, [small])[0]
         mo = model_run(drv, [small])[0]
         text, occ = print_prog(small["prog"], small["cpp"])
-        bad, unl, dup_ids = p_impl(small, im[1], mo, occ)
-        viol = [dict(case=small, text=text, impl=im[1], spec=mo["S"], model=mo["M"], old=mo["O"], bad=bad, dup_ids=dup_ids, key=classify(im[1], mo))] + viol
+        bad, unl, dup_ids = p_impl(small, im[2], mo, occ)
+        viol = [dict(case=small, text=text, impl=im[2], spec=mo["S"], model=mo["M"], old=mo["O"], bad=bad, dup_ids=dup_ids,
+                     key=classify(small, im[1], mo, occ, bad, dup_ids))] + viol
     return viol
 
 
